@@ -56,8 +56,35 @@ pub open spec fn ids_wf(n: Nodes, counter: u32) -> bool {
     forall|x: ModuleNodeId| #[trigger] n.contains_key(x) ==> x.id < counter
 }
 
+/// the `d`-th ancestor of `x` (following `parent`)
+pub open spec fn anc(n: Nodes, x: ModuleNodeId, d: nat) -> Option<ModuleNodeId>
+    decreases d
+{
+    if d == 0 { Some(x) } else if !n.contains_key(x) { None } else {
+        match n[x].parent { Some(p) => anc(n, p, (d - 1) as nat), None => None }
+    }
+}
+
+/// every node hangs under the root: following `parent` reaches the root (so there is no detached cycle that would keep memory alive)
+pub open spec fn rooted(n: Nodes, root: ModuleNodeId) -> bool {
+    forall|x: ModuleNodeId| #[trigger] n.contains_key(x) ==> exists|d: nat| #[trigger] anc(n, x, d) == Some(root)
+}
+
 pub open spec fn wf_parts(n: Nodes, root: ModuleNodeId, fm: FileMap, nt: NameTable, counter: u32) -> bool {
-    &&& tree_wf(n, root) &&& files_wf(n, fm) &&& names_wf(nt, fm) &&& ids_wf(n, counter)
+    &&& tree_wf(n, root) &&& rooted(n, root) &&& files_wf(n, fm) &&& names_wf(nt, fm) &&& ids_wf(n, counter)
+}
+
+/// nodes are only added and keep their parent: every ancestor chain stays what it was
+pub proof fn lemma_anc_same_parents(o: Nodes, n: Nodes, x: ModuleNodeId, d: nat, r: ModuleNodeId)
+    requires forall|y: ModuleNodeId| #[trigger] o.contains_key(y) ==> n.contains_key(y) && n[y].parent == o[y].parent,
+        anc(o, x, d) == Some(r),
+    ensures anc(n, x, d) == Some(r),
+    decreases d
+{
+    if d > 0 {
+        assert(o.contains_key(x));
+        lemma_anc_same_parents(o, n, o[x].parent->0, (d - 1) as nat, r);
+    }
 }
 
 // ---- what `remove(f)` does to the tree ----------------------------------------------------------------
